@@ -169,3 +169,61 @@ pub fn grpc_frames(mut body: &[u8]) -> Result<Vec<(bool, &[u8])>, String> {
     }
     Ok(out)
 }
+
+/// The resource attribute scenarios configure (`OtlpBuilder::resource`).
+pub const RES_KEY: &str = "vh.res";
+
+fn str_attr(attrs: &[pb::common::v1::KeyValue], key: &str) -> Option<String> {
+    use pb::common::v1::any_value::Value as V;
+    attrs.iter().find(|kv| kv.key == key).and_then(|kv| match kv.value.as_ref().and_then(|v| v.value.as_ref()) {
+        Some(V::StringValue(s)) => Some(s.clone()),
+        _ => None,
+    })
+}
+
+/// Value of the `vh.res` resource attribute of a protobuf request ("" when there is no
+/// resource or no such attribute; "?" when the resources of one request disagree).
+pub fn resource_tag_proto(sig: Signal, body: &[u8]) -> String {
+    let tags: Vec<Option<String>> = match sig {
+        Signal::Logs => pb::collector::logs::v1::ExportLogsServiceRequest::decode(body)
+            .map(|r| r.resource_logs.iter().map(|x| x.resource.as_ref().and_then(|r| str_attr(&r.attributes, RES_KEY))).collect())
+            .unwrap_or_default(),
+        Signal::Traces => pb::collector::trace::v1::ExportTraceServiceRequest::decode(body)
+            .map(|r| r.resource_spans.iter().map(|x| x.resource.as_ref().and_then(|r| str_attr(&r.attributes, RES_KEY))).collect())
+            .unwrap_or_default(),
+        Signal::Metrics => pb::collector::metrics::v1::ExportMetricsServiceRequest::decode(body)
+            .map(|r| r.resource_metrics.iter().map(|x| x.resource.as_ref().and_then(|r| str_attr(&r.attributes, RES_KEY))).collect())
+            .unwrap_or_default(),
+    };
+    one_tag(tags)
+}
+
+fn one_tag(tags: Vec<Option<String>>) -> String {
+    let mut it = tags.into_iter();
+    let first = it.next().flatten();
+    for t in it {
+        if t != first {
+            return "?".into();
+        }
+    }
+    first.unwrap_or_default()
+}
+
+pub fn resource_tag_json(sig: Signal, body: &[u8]) -> String {
+    let Ok(v) = serde_json::from_slice::<Value>(body) else { return String::new() };
+    let res = match sig {
+        Signal::Logs => "resourcelogs",
+        Signal::Traces => "resourcespans",
+        Signal::Metrics => "resourcemetrics",
+    };
+    let tags = arr(&v, res)
+        .iter()
+        .map(|r| {
+            let attrs = field(r, "resource").map(|x| arr(x, "attributes")).unwrap_or(&[]);
+            attrs.iter().find(|kv| field(kv, "key").and_then(|k| k.as_str()) == Some(RES_KEY)).and_then(|kv| {
+                field(kv, "value").and_then(|val| val.as_object()).and_then(|o| o.iter().find(|(k, _)| norm(k) == "stringvalue").and_then(|(_, s)| s.as_str().map(String::from)))
+            })
+        })
+        .collect();
+    one_tag(tags)
+}
